@@ -1,7 +1,7 @@
 #!/usr/bin/env python3
 """False-alarm test: behaviour-preserving refactorings must keep every check quiet.
 
-usage: bin/benign_eval.py <module> <CHECK,CHECK,...>     (reads /tmp/ref_<module>/OUT/r*.diff)
+usage: bin/benign_eval.py <module> <CHECK,CHECK,...> [r1,r2,...]    (reads /tmp/ref_<module>/OUT/r*.diff)
 Each diff is applied to the scratch worktree /tmp/ref_<module> (never to /repo), the unedited
 test-suite must pass, then the listed quick checks run with VF_REPO pointing there and must
 all exit 0.  Results go to seeded/benign/<module>-r<i>/{patch.diff,meta.json}.
@@ -25,10 +25,13 @@ def sh(cmd, cwd=None, env=None):
 
 def main():
     mod, checks = sys.argv[1], sys.argv[2].split(",")
+    only = set(sys.argv[3].split(",")) if len(sys.argv) > 3 else None
     wt = f"/tmp/ref_{mod}"
     bad = 0
     for diff in sorted(glob.glob(f"{wt}/OUT/r*.diff")):
         name = f"{mod}-{os.path.basename(diff)[:-5]}"
+        if only and os.path.basename(diff)[:-5] not in only:
+            continue
         sh("git checkout -- tinyflux", cwd=wt)
         rc, o = sh(f"git apply {diff}", cwd=wt)
         if rc:
